@@ -715,6 +715,102 @@ func genOpt(r *vlib.Rng, name string, invalid bool) c19Opt {
 var c19CanBeInvalid = map[string]bool{"WithNetconfPreferredVersion": true, "WithTransportType": true, "WithSSHConfigFile": true,
 	"WithSSHKnownHostsFile": true, "logging_WithLevel": true}
 
+// c19Additive: the options that append; every other option replaces.
+var c19Additive = map[string]bool{"WithSystemTransportOpenArgs": true, "logging_WithLogger": true}
+
+// c19PlatToOpt: platform option name -> option function (Go-side copy, independent of the translator).
+var c19PlatToOpt = map[string]string{"port": "WithPort", "auth-bypass": "WithAuthBypass", "auth-strict-key": "WithAuthNoStrictKey",
+	"prompt-pattern": "WithPromptPattern", "username-pattern": "WithUsernamePattern", "password-pattern": "WithPasswordPattern",
+	"passphrase-pattern": "WithPassphrasePattern", "return-char": "WithReturnChar", "read-delay": "WithReadDelay", "timeout-ops": "WithTimeoutOps",
+	"transport-type": "WithTransportType", "read-size": "WithTransportReadSize", "transport-pty-height": "WithTermHeight",
+	"transport-pty-width": "WithTermWidth", "transport-system-open-args": "WithSystemTransportOpenArgs"}
+
+// optWrites: the (field, value) pairs the option assigns, by the Go-side spec.
+func optWrites(o c19Opt) map[string]c19Val {
+	w := map[string]c19Val{}
+	named := c19Named[o.name]
+	var v c19Val
+	switch o.name {
+	case "WithAuthBypass", "WithNetconfExcludeHeader", "WithNetconfForceSelfClosingTags":
+		v = sv("true")
+	case "WithAuthNoStrictKey":
+		v = sv("false")
+	case "WithDefaultLogger", "WithSSHConfigFileSystem", "WithSSHKnownHostsFileSystem":
+		v = o.env
+	case "WithAuthPrivateKey":
+		w[named[0]] = o.args[0]
+		w[named[1]] = o.args[1]
+		return w
+	case "WithPrivilegeLevels":
+		w[named[0]] = o.args[0]
+		return w
+	default:
+		if len(o.args) > 0 {
+			v = o.args[0]
+		}
+	}
+	for _, n := range named {
+		w[n] = v
+	}
+	return w
+}
+
+// goSpec folds the effective option list (platform options first, then the user's) into the
+// expected value of every field some option names: last replacement wins, additive options
+// accumulate in order.
+func goSpec(plat *c19Plat, user []c19Opt) (map[string]c19Val, bool) {
+	var all []c19Opt
+	if plat != nil {
+		if len(plat.fwc) > 0 {
+			all = append(all, c19Opt{name: "WithFailedWhenContains", args: []c19Val{lv(plat.fwc...)}})
+		}
+		pf := sv("<platform-fn>")
+		if plat.oo {
+			all = append(all, c19Opt{name: "WithOnOpen", args: []c19Val{pf}})
+		}
+		if plat.oc {
+			all = append(all, c19Opt{name: "WithOnClose", args: []c19Val{pf}})
+		}
+		all = append(all, c19Opt{name: "WithPrivilegeLevels", args: []c19Val{plat.privs}}, c19Opt{name: "WithDefaultDesiredPriv", args: []c19Val{sv(plat.ddp)}})
+		if plat.noo {
+			all = append(all, c19Opt{name: "WithNetworkOnOpen", args: []c19Val{pf}})
+		}
+		if plat.noc {
+			all = append(all, c19Opt{name: "WithNetworkOnClose", args: []c19Val{pf}})
+		}
+		for _, po := range plat.opts {
+			on, ok := c19PlatToOpt[po.name]
+			if !ok {
+				return nil, false
+			}
+			o := c19Opt{name: on}
+			switch po.kind {
+			case 'i':
+				o.args = []c19Val{sv(strconv.Itoa(po.n))}
+			case 's':
+				o.args = []c19Val{sv(po.s)}
+			case 'f':
+				o.args = []c19Val{sv(strconv.FormatInt(int64(po.n)*125000000, 10))}
+			case 'l':
+				o.args = []c19Val{lv(po.l...)}
+			}
+			all = append(all, o)
+		}
+	}
+	all = append(all, user...)
+	exp := map[string]c19Val{}
+	for _, o := range all {
+		for f, v := range optWrites(o) {
+			if c19Additive[o.name] {
+				exp[f] = append(append(c19Val{}, exp[f]...), v...)
+			} else {
+				exp[f] = v
+			}
+		}
+	}
+	return exp, true
+}
+
 // ---------------------------------------------------------------- platform definitions
 
 type c19PlatOpt struct {
@@ -1498,6 +1594,25 @@ func runC19(c *ctx) {
 				}
 			}
 			res.Count(fmt.Sprintf("single-changed:%d", changed))
+		}
+		// --- Go-only oracle: last wins / additive in order / user over platform, from the Go-side
+		// table of named settings (independent of the translator and the Lean model)
+		if dom && impl.err == "" && !impl.panicked {
+			if exp, ok := goSpec(cs.plat, cs.user); ok {
+				for fk, want := range exp {
+					got, have := impl.fields[fk]
+					if !have {
+						continue // object not built by this constructor / transport
+					}
+					if fk == "channel.Channel.PromptPattern" && cs.ctor != "generic" {
+						continue // network and NETCONF drivers derive the prompt pattern themselves (documented)
+					}
+					if !valEq(got, want) {
+						res.Fail("oracle", line, fmt.Sprintf("%s: %s is %s, the options naming it say %s", describe(), fk, showVal(got), showVal(want)), "named-setting:"+fk)
+						break
+					}
+				}
+			}
 		}
 		// --- Go-only oracle: order independence
 		if cs.perm != nil {
